@@ -332,3 +332,82 @@ func c10WordSets(c *vrep.Ctx) {
 		}
 	})
 }
+
+// c10_entities: character references for EVERY code point 0..255 (decimal, hexadecimal, with and
+// without the semicolon) and the named references for ASCII punctuation and white space, alone at
+// the start of a line, glued behind / in front of a word, and twice in a row, through every entry
+// point (what a word is is decided before references are resolved, so a reference can yield text
+// that no raw word can be).
+func init() { vRegister("c10_entities", c10Entities) }
+
+func c10Entities(c *vrep.Ctx) {
+	var refs []string
+	for n := 0; n < 256; n++ {
+		refs = append(refs, fmt.Sprintf("&#%d;", n), fmt.Sprintf("&#x%x;", n), fmt.Sprintf("&#%d", n))
+	}
+	for _, n := range []string{"period", "colon", "rpar", "lpar", "comma", "semi", "excl", "quest", "hyphen", "dash", "lowbar", "sol", "bsol", "num", "dollar", "percnt", "ast", "plus", "equals", "lt", "gt", "amp", "quot", "apos", "nbsp", "Tab", "NewLine", "ensp", "emsp", "thinsp", "zwnj", "shy", "copy", "sect", "para", "middot", "hellip", "ldquo", "rdquo", "lsquo", "rsquo", "ndash", "mdash"} {
+		refs = append(refs, "&"+n+";", "&"+n)
+	}
+	ctxs := []struct{ name, pre, post string }{
+		{"alone on a line", "aa bb\n", "\ncc aa bb"}, {"first word of a line", "aa bb\n", " cc aa bb"}, {"glued behind a word", "aa bb", " cc"},
+		{"glued in front of a word", "aa ", "bb cc"}, {"whole input", "", ""}, {"twice", "aa ", ""}, {"before end of input", "aa bb cc aa bb ", ""},
+	}
+	apis := []string{"Match", "MatchFrom", "Normalize", "AddContent+Match"}
+	ts := []float64{0.8, 0}
+	cls := make([]*Classifier, len(ts))
+	for i, t := range ts {
+		cls[i] = c10Corpus(3, t)
+	}
+	c.R.Rule = fmt.Sprintf("%d character references (every code point 0..255 in three spellings, %d named ones) x %d places x {Match, MatchFrom, Normalize, AddContent-then-Match} x thresholds %v: no panic, no error, caller's bytes unchanged; non-trivial = all cases", len(refs), 86, len(ctxs), ts)
+	c.Bound("references", len(refs))
+	body := func(r *vx.Run) {
+		ref := refs[r.Choose(len(refs), "reference")]
+		cx := ctxs[r.Choose(len(ctxs), "place")]
+		if r.Scout() {
+			return
+		}
+		text := cx.pre + ref + cx.post
+		if cx.name == "twice" {
+			text = cx.pre + ref + " " + ref
+		}
+		in := []byte(text)
+		keep := append([]byte(nil), in...)
+		var msgs []string
+		for ti, cl := range cls {
+			for ai, api := range apis {
+				msg := vPanics(func() {
+					switch ai {
+					case 0:
+						cl.Match(in)
+					case 1:
+						if _, err := cl.MatchFrom(bytes.NewReader(in)); err != nil {
+							panic("unexpected error " + err.Error())
+						}
+					case 2:
+						cl.Normalize(in)
+					case 3:
+						fresh := c10Corpus(3, ts[ti])
+						fresh.AddContent("License", "Added", "license.txt", in)
+						fresh.Match(in)
+					}
+				})
+				c.R.Evaluations++
+				c.R.Nontrivial++
+				if msg != "" {
+					msgs = append(msgs, fmt.Sprintf("%s T=%v: panic: %s", api, ts[ti], msg))
+				}
+			}
+		}
+		if !bytes.Equal(in, keep) {
+			msgs = append(msgs, "the caller's bytes were modified")
+		}
+		r.Note = map[string]interface{}{"id": fmt.Sprintf("%s %s", ref, cx.name), "msgs": msgs}
+	}
+	c.Run(vSplitExplorer(c, 0, 1), body, func(r *vx.Run) {
+		c.R.Evaluations--
+		if ms := r.Note["msgs"].([]string); len(ms) > 0 {
+			id := r.Note["id"].(string)
+			c.Violate("c10_entities:"+strings.ReplaceAll(id, " ", "_"), id+": "+ms[0], r, strings.Join(ms, "\n"))
+		}
+	})
+}
